@@ -77,12 +77,19 @@ impl CompressedReader {
 }
 
 /// A decoder stops at the end of the compressed stream and does not look at what follows. Before
-/// the end of the body is reported the framing underneath is asked once more, so that a body whose
-/// frame was cut short (no final chunk, fewer bytes than announced) is still an error.
+/// the end of the body is reported the framing underneath is read to its own end, so that a body
+/// whose frame was cut short (no final chunk, fewer bytes than announced) is still an error, also
+/// when something follows the compressed stream inside the frame.
 #[cfg(feature = "flate2")]
 fn end_of_stream(inner: &mut BodyReader, buf: &[u8]) -> io::Result<usize> {
     if !buf.is_empty() {
-        inner.fill_buf()?;
+        loop {
+            let n = inner.fill_buf()?.len();
+            if n == 0 {
+                break;
+            }
+            inner.consume(n);
+        }
     }
     Ok(0)
 }
